@@ -361,6 +361,11 @@ class PEP(object):
                 raise ValueError("The argument \'dimension_reduction_heuristic\' must be \'trace\'"
                                  "or \`logdet\` followed by a positive integer."
                                  "Got {}".format(dimension_reduction_heuristic))
+            for option_name, option in [("eig_regularization", eig_regularization),
+                                        ("tol_dimension_reduction", tol_dimension_reduction)]:
+                if not isinstance(option, (int, float, np.number)) or not 0 <= option < np.inf:
+                    raise ValueError("The argument \'{}\' must be a nonnegative finite number."
+                                     "Got {}".format(option_name, option))
 
         # Check that the solver is installed, if it is not, switch to CVXPY.
         found_python_package = importlib.util.find_spec(wrapper_name)
